@@ -65,6 +65,7 @@ package croncontroller
 //@        ==> cronschedule.dueAt(w.schedule, flushKey(chanat(w.updatedConfigs, i))) * 1000000000 > ns(now)
 //@   ensures [C03] takes-pending-updates: chanrecvd(w.updatedConfigs) >= old(chanrecvd(w.updatedConfigs)) && chanrecvd(w.updatedConfigs) <= chansent(w.updatedConfigs)
 //@        && (chanrecvd(w.updatedConfigs) == chansent(w.updatedConfigs) || chanrecvd(w.updatedConfigs) == old(chanrecvd(w.updatedConfigs)) + 1000)
+//@        && chansent(w.updatedConfigs) == old(chansent(w.updatedConfigs))
 
 //@ extern func iface github.com/furiko-io/furiko/pkg/runtime/controllercontext.Context.Configs
 //@   params recv
@@ -79,7 +80,7 @@ package croncontroller
 //@ pure capOf(n int) int = n > 0 ? n : 0
 
 //@ func CronWorker.Work
-//@   tags C01, C04
+//@   tags C01, C03, C04
 //@   requires w != nil && cronschedule.swf(w.schedule)
 //@   requires chanrecvd(w.updatedConfigs) <= chansent(w.updatedConfigs) && (forall i int :: chanrecvd(w.updatedConfigs) <= i && i < chansent(w.updatedConfigs) ==> chanat(w.updatedConfigs, i) != nil)
 //@   modifies chanof(w.updatedConfigs), enqN, enqKey, enqTs, enqPerKey, clock, w.schedule.jobConfigs.pq.queue, arrays(*heap.Item), mapof(w.schedule.jobConfigs.pq.names), heap(heap.Item)
@@ -89,6 +90,10 @@ package croncontroller
 //@   loop 1 invariant log-append-only: forall i int :: i < old(enqN) ==> enqKey[i] == old(enqKey[i]) && enqTs[i] == old(enqTs[i])
 //@   loop 1 invariant counted: forall k string :: old(enqPerKey[k]) <= enqPerKey[k] && enqPerKey[k] <= old(enqPerKey[k]) + scheduledCount[k] && scheduledCount[k] >= 0
 //@   loop 1 invariant capped: forall k string :: scheduledCount[k] <= capOf(maxMissedSchedules)
+// C03 ("stops being scheduled as soon as it is disabled", "fires according to the new schedule only"): whenever the
+// tick is about to pop a due schedule, every update received before the tick (up to 1000) has already been applied
+//@   loop 1 invariant [C03] pending-updates-applied-before-any-firing: chansent(w.updatedConfigs) == old(chansent(w.updatedConfigs))
+//@        && (chanrecvd(w.updatedConfigs) == chansent(w.updatedConfigs) || chanrecvd(w.updatedConfigs) == old(chanrecvd(w.updatedConfigs)) + 1000)
 //@   ensures [C01] keeps-wf: cronschedule.swf(w.schedule)
 //@   ensures [C01] never-early: forall i int :: old(enqN) <= i && i < enqN ==> enqTs[i] <= clock
 //@   ensures [C01] log-append-only: enqN >= old(enqN) && (forall i int :: i < old(enqN) ==> enqKey[i] == old(enqKey[i]) && enqTs[i] == old(enqTs[i]))
@@ -154,12 +159,18 @@ package croncontroller
 //@   ensures [C03] queued-for-the-next-tick: chansent(d.updateChan) == old(chansent(d.updateChan)) + 1 && chanat(d.updateChan, old(chansent(d.updateChan))) == jobConfig
 //@        && chanrecvd(d.updateChan) == old(chanrecvd(d.updateChan))
 
-// schedule equality (JSON comparison of the ScheduleSpec values): ASSUMED to be an equivalence relation decided by IsScheduleEqual
-//@ pure schedEq(a *execution.ScheduleSpec, b *execution.ScheduleSpec) bool
-//@ axiom schedEq-reflexive: forall a *execution.ScheduleSpec :: schedEq(a, a)
-//@ extern func IsScheduleEqual
-//@   params orig, updated
-//@   ensures result1 == nil ==> result0 == schedEq(orig, updated)
+// schedule equality: the JSON comparison (cmp.IsJSONEqual, ASSUMED an equivalence on the values compared) of the WHOLE
+// ScheduleSpec - cron expressions, timezone, disabled flag, constraint window and the last-updated stamp (C03: every
+// change of the schedule, "for all schedules and constraint windows", is followed)
+//@ pure jsonEq(a any, b any) bool
+//@ axiom jsonEq-reflexive: forall a any :: jsonEq(a, a)
+//@ extern func github.com/furiko-io/furiko/pkg/utils/cmp.IsJSONEqual
+//@   params first, second
+//@   ensures result1 == nil ==> result0 == jsonEq(first, second)
+//@ pure schedEq(a *execution.ScheduleSpec, b *execution.ScheduleSpec) bool = jsonEq(iface(a), iface(b))
+//@ func IsScheduleEqual
+//@   tags C03
+//@   ensures [C03] compares-the-whole-schedule-spec: result1 == nil ==> result0 == schedEq(orig, updated)
 
 //@ pure asJobConfig(obj any) *execution.JobConfig = typeis(obj, *execution.JobConfig) ? unbox(obj, *execution.JobConfig)
 //@     : ((typeis(obj, cache.DeletedFinalStateUnknown) && typeis(unbox(obj, cache.DeletedFinalStateUnknown).Obj, *execution.JobConfig))
